@@ -219,6 +219,26 @@ func TestC20(t *testing.T) {
 					rec.Violation(caseNo, fmt.Sprintf("key-roundtrip-across-instances/v%d", v), fmt.Sprintf("licence v%d, two fresh cipher instances of one licence: %s", v, bad), map[string]interface{}{"ops": ops})
 				}
 			}
+			// a valid key with characters that lenient decoders skip (line breaks, blanks, padding) inserted, prepended or
+			// appended: not 32 valid characters, must be rejected - otherwise one key has many spellings
+			validK, _ := c1.EncryptKey(security.Key(r.Bytes(24)))
+			for _, ins := range []string{"\n", "\r", "\r\n", " ", "\t", "=", "==", "\x00"} {
+				for _, pos := range []int{0, 1, 4, 15, 16, 31, 32} {
+					caseNo++
+					if !vk.Mine(caseNo) {
+						continue
+					}
+					cand := validK[:pos] + ins + validK[pos:]
+					_, err, pan := decrypt(c1, cand)
+					rec.Case(vk.Hash("cand-ins", v, ins, pos, cand), true)
+					rec.Inc("candidate_strings")
+					if pan != "" {
+						rec.Violation(caseNo, fmt.Sprintf("decrypt-panics/v%d", v), fmt.Sprintf("DecryptKey(%q) panics: %s", cand, pan), nil)
+					} else if err == nil {
+						rec.Violation(caseNo, fmt.Sprintf("invalid-key-string-accepted/v%d", v), fmt.Sprintf("DecryptKey(%q) (a valid key with %q inserted at %d, length %d) returned no error", cand, ins, pos, len(cand)), nil)
+					}
+				}
+			}
 			// candidate key strings that must be rejected
 			valid, _ := c1.EncryptKey(security.Key(r.Bytes(24)))
 			for l := 0; l <= 40; l++ {
